@@ -58,6 +58,7 @@ let () =
   port "collapse_ws" (fun r -> wr_str (collapse_ws (rd_str r)));
   port "splitlines" (fun r -> wr_strs (splitlines (rd_str r)));
   port "escape_word" (fun r -> wr_str (escape_word (rd_str r)));
+  port "opens_block_word" (fun r -> wr_bool (opens_block_word (rd_str r)));
   port "wrap_words" (fun r ->
     let md = rd_bool r in let w = rd_z r in let c0 = rd_z r in let c1 = rd_z r in
     let ws = rd_strs r in
